@@ -12,6 +12,7 @@ import (
 	"go/types"
 	"regexp/syntax"
 	"sort"
+	"strconv"
 	"strings"
 
 	"golang.org/x/tools/go/ssa"
@@ -129,6 +130,7 @@ type genDyn struct {
 	repl   []string // constants that may replace removed bytes
 	kwSafe bool     // guarded against being a Go keyword
 	raw    bool     // the untransformed tree member (for C08.B1)
+	repeat string   // strings.Repeat of this constant: zero or more copies
 }
 
 type genPiece struct {
@@ -174,16 +176,22 @@ type genWalker struct {
 	// Segs: the emitted text per straight-line stretch of the template code: constant text in emission order with \x00
 	// for every dynamic splice; a new segment starts at every branch, loop and return. Rules about the shape of the
 	// generated code look at segments, so that it does not matter how the text is cut into WriteString calls or locals.
-	Segs      []genFrag
-	curSeg    *genFrag
+	Segs   []genFrag
+	curSeg *genFrag
+	nFlush int
+	// StmtText: the text emitted by a (simple) statement of the template: a WriteString, a call of a line helper, a Fprintf
+	StmtText  map[*ast.ExprStmt]string
 	Problems  []genProblem
 	lastConst string
 
-	changed   bool       // a parameter class was widened during this walk: walk again
-	evalDepth int        // > 0 while a string-valued helper is evaluated for its result (nothing is emitted)
-	retExprs  []ast.Expr // results of the return statements seen while evaluating a helper
-	retFn     []string
-	origIdent map[*ast.Ident]types.Object
+	changed     bool       // a parameter class was widened during this walk: walk again
+	evalDepth   int        // > 0 while a string-valued helper is evaluated for its result (nothing is emitted)
+	retExprs    []ast.Expr // results of the return statements seen while evaluating a helper
+	retFn       []string
+	origIdent   map[*ast.Ident]types.Object
+	inlineDepth int
+	methods     map[string]*ast.FuncDecl // methods declared in the generator, by name
+	synthConst  map[ast.Expr]string      // constant pieces made by the walker itself (fmt.Fprintf formats)
 }
 
 type genProblem struct {
@@ -384,6 +392,9 @@ func (a *genWalker) pieces(e ast.Expr) ([]genPiece, bool) {
 	if tv, ok := a.info.Types[e]; ok && tv.Value != nil && tv.Value.Kind() == constant.String {
 		return []genPiece{{konst: constant.StringVal(tv.Value)}}, true
 	}
+	if k, ok := a.synthConst[e]; ok {
+		return []genPiece{{konst: k}}, true
+	}
 	switch x := e.(type) {
 	case *ast.ParenExpr:
 		return a.pieces(x.X)
@@ -430,9 +441,59 @@ func (a *genWalker) pieces(e ast.Expr) ([]genPiece, bool) {
 				return a.evalStringFunc(fd, x)
 			}
 		}
+		// strings.NewReplacer("a", "b", ...).Replace(x) with single-byte constant patterns: as the Replace calls in turn
+		if se, ok := x.Fun.(*ast.SelectorExpr); ok && se.Sel.Name == "Replace" && len(x.Args) == 1 {
+			if inner, ok := se.X.(*ast.CallExpr); ok {
+				if ise, ok := inner.Fun.(*ast.SelectorExpr); ok && ise.Sel.Name == "NewReplacer" && len(inner.Args)%2 == 0 {
+					if id, ok := ise.X.(*ast.Ident); ok && id.Name == "strings" {
+						ps, ok := a.pieces(x.Args[0])
+						if !ok || len(ps) != 1 || ps[0].dyn == nil {
+							return nil, false
+						}
+						d := *ps[0].dyn
+						d.first, d.rest = d.first.copy(), d.rest.copy()
+						d.raw = false
+						for i := 0; i+1 < len(inner.Args); i += 2 {
+							old, ok1 := a.pieces(inner.Args[i])
+							nw, ok2 := a.pieces(inner.Args[i+1])
+							if !ok1 || !ok2 || len(old) != 1 || old[0].dyn != nil || len(nw) != 1 || nw[0].dyn != nil || len(old[0].konst) != 1 {
+								return nil, false
+							}
+							c := old[0].konst[0]
+							wasFirst := d.first[c]
+							d.first[c], d.rest[c] = false, false
+							if nw[0].konst != "" {
+								d.repl = append(append([]string{}, d.repl...), nw[0].konst)
+							} else if wasFirst {
+								for j := range d.first {
+									d.first[j] = d.first[j] || d.rest[j]
+								}
+							}
+							d.what = fmt.Sprintf("Replace(%s,%q,%q)", d.what, old[0].konst, nw[0].konst)
+						}
+						return []genPiece{{dyn: &d}}, true
+					}
+				}
+			}
+		}
 		if se, ok := x.Fun.(*ast.SelectorExpr); ok {
 			if id, ok := se.X.(*ast.Ident); ok && id.Name == "strings" {
 				switch se.Sel.Name {
+				case "Repeat":
+					// strings.Repeat("<constant>", n): any number of copies of the constant
+					ps, ok := a.pieces(x.Args[0])
+					if !ok || len(ps) != 1 || ps[0].dyn != nil {
+						return nil, false
+					}
+					var f, r genCharset
+					k := ps[0].konst
+					for i := 0; i < len(k); i++ {
+						r[k[i]] = true
+					}
+					if k != "" {
+						f[k[0]] = true
+					}
+					return []genPiece{{dyn: &genDyn{what: fmt.Sprintf("Repeat(%q)", k), first: &f, rest: &r, repeat: k}}}, true
 				case "Title", "ToLower", "ToUpper":
 					ps, ok := a.pieces(x.Args[0])
 					if !ok || len(ps) != 1 || ps[0].dyn == nil {
@@ -507,6 +568,16 @@ func (a *genWalker) pieces(e ast.Expr) ([]genPiece, bool) {
 var goKeywords = []string{"break", "case", "chan", "const", "continue", "default", "defer", "else", "fallthrough", "for", "func", "go", "goto", "if", "import", "interface", "map", "package", "range", "return", "select", "struct", "switch", "type", "var"}
 
 func (a *genWalker) feedDyn(l lexState, d *genDyn, at ast.Node, prev, next string, hasNext bool) lexState {
+	if d.repeat != "" {
+		// zero or more copies of a constant (indentation): the lexical mode must be the same after any number of them
+		once := l.feedStr(d.repeat)
+		j, ok := joinLex(l, once)
+		twice := once.feedStr(d.repeat)
+		if _, ok2 := joinLex(once, twice); !ok || !ok2 {
+			a.problem(at, fmt.Sprintf("a repeated constant %q changes the lexical mode of the output", d.repeat))
+		}
+		return j
+	}
 	sp := &genSplice{Pos: at.Pos(), Fn: a.curFn, Dyn: d, Mode: l.m, Prev: prev, Next: next, OK: true}
 	a.Splices = append(a.Splices, sp)
 	bad := func(set *genCharset, pred func(byte) bool) string {
@@ -648,9 +719,14 @@ func isBufWrite(call *ast.CallExpr) bool {
 	return ok && se.Sel.Name == "WriteString"
 }
 
-func (a *genWalker) stmts(list []ast.Stmt, l lexState, rets *[]lexState) (lexState, bool) {
-	a.flushSeg() // a statement list is a branch/loop/function body: its text starts a new segment
+// branch walks the body of a branch or loop: its text is a segment of its own.
+func (a *genWalker) branch(list []ast.Stmt, l lexState, rets *[]lexState) (lexState, bool) {
+	a.flushSeg()
 	defer a.flushSeg()
+	return a.stmts(list, l, rets)
+}
+
+func (a *genWalker) stmts(list []ast.Stmt, l lexState, rets *[]lexState) (lexState, bool) {
 	for _, s := range list {
 		var dead bool
 		l, dead = a.stmt(s, l, rets)
@@ -678,6 +754,9 @@ func (a *genWalker) flushSeg() {
 	if a.curSeg != nil && a.curSeg.Text != "" {
 		a.Segs = append(a.Segs, *a.curSeg)
 	}
+	if a.curSeg != nil {
+		a.nFlush++
+	}
 	a.curSeg = nil
 }
 
@@ -687,14 +766,44 @@ func (a *genWalker) stmt(s ast.Stmt, l lexState, rets *[]lexState) (lexState, bo
 		a.flushSeg()
 		defer a.flushSeg()
 	}
+	if es, ok := s.(*ast.ExprStmt); ok && a.evalDepth == 0 {
+		// the text this statement emits (constant text, \x00 per splice), for rules that ask what is written right
+		// before / after a given statement
+		before, flushes := 0, a.nFlush
+		if a.curSeg != nil {
+			before = len(a.curSeg.Text)
+		}
+		defer func() {
+			if a.nFlush == flushes && a.curSeg != nil && len(a.curSeg.Text) >= before {
+				a.StmtText[es] = a.curSeg.Text[before:]
+			}
+		}()
+	}
 	switch x := s.(type) {
 	case *ast.ExprStmt:
 		if call, ok := x.X.(*ast.CallExpr); ok {
 			if isBufWrite(call) {
 				return a.feedExpr(l, call.Args[0]), false
 			}
+			// fmt.Fprintf(&b, "format", args...): the format's constant text with its %s / %d verbs as splices
+			if se, ok := call.Fun.(*ast.SelectorExpr); ok && se.Sel.Name == "Fprintf" && len(call.Args) >= 2 {
+				if id, ok := se.X.(*ast.Ident); ok && id.Name == "fmt" {
+					if e, ok := a.formatExpr(call.Args[1], call.Args[2:]); ok {
+						return a.feedExpr(l, e), false
+					}
+					a.problem(call, "fmt.Fprintf to the output buffer with a format that could not be classified: "+types.ExprString(call))
+					return l, false
+				}
+			}
 			if id, ok := call.Fun.(*ast.Ident); ok {
 				if fd, ok := a.funcs[id.Name]; ok {
+					a.bindParams(fd, call)
+					return a.callFn(fd, l, call), false
+				}
+			}
+			// a method declared in the generator on its output type (`func (o *out) line(s string)`)
+			if se, ok := call.Fun.(*ast.SelectorExpr); ok {
+				if fd := a.methodDecl(se); fd != nil {
 					a.bindParams(fd, call)
 					return a.callFn(fd, l, call), false
 				}
@@ -740,10 +849,12 @@ func (a *genWalker) stmt(s ast.Stmt, l lexState, rets *[]lexState) (lexState, bo
 			}
 			return l, false
 		}
-		thenL, thenDead := a.stmts(x.Body.List, l, rets)
+		thenL, thenDead := a.branch(x.Body.List, l, rets)
 		elseL, elseDead := l, false
 		if x.Else != nil {
+			a.flushSeg()
 			elseL, elseDead = a.stmt(x.Else, l, rets)
+			a.flushSeg()
 		}
 		switch {
 		case thenDead && elseDead:
@@ -766,7 +877,7 @@ func (a *genWalker) stmt(s ast.Stmt, l lexState, rets *[]lexState) (lexState, bo
 			if cc.List == nil {
 				hasDefault = true
 			}
-			o, dead := a.stmts(cc.Body, l, rets)
+			o, dead := a.branch(cc.Body, l, rets)
 			if !dead {
 				outs = append(outs, o)
 			}
@@ -786,14 +897,14 @@ func (a *genWalker) stmt(s ast.Stmt, l lexState, rets *[]lexState) (lexState, bo
 		}
 		return j, false
 	case *ast.RangeStmt:
-		o, _ := a.stmts(x.Body.List, l, rets)
+		o, _ := a.branch(x.Body.List, l, rets)
 		j, ok := joinLex(l, o)
 		if !ok {
 			a.problem(x, fmt.Sprintf("loop body changes the lexical mode of the output (%s -> %s)", lexModeName[l.m], lexModeName[o.m]))
 		}
 		return j, false
 	case *ast.ForStmt:
-		o, _ := a.stmts(x.Body.List, l, rets)
+		o, _ := a.branch(x.Body.List, l, rets)
 		j, ok := joinLex(l, o)
 		if !ok {
 			a.problem(x, fmt.Sprintf("loop body changes the lexical mode of the output (%s -> %s)", lexModeName[l.m], lexModeName[o.m]))
@@ -999,6 +1110,65 @@ func keywordGuard(info *types.Info, x *ast.IfStmt) types.Object {
 }
 
 func (a *genWalker) callFn(fd *ast.FuncDecl, l lexState, at ast.Node) lexState {
+	// a function with string parameters is walked for this call with the parameters standing for the argument
+	// expressions (so `o.line("func f() {")` emits exactly that text); others are summarised per entry mode
+	if call, ok := at.(*ast.CallExpr); ok && a.inlineDepth < 4 && fd.Type.Params != nil {
+		type bound struct {
+			obj types.Object
+			e   ast.Expr
+		}
+		var bs []bound
+		idx := 0
+		for _, fld := range fd.Type.Params.List {
+			for _, pn := range fld.Names {
+				if types.Identical(a.info.TypeOf(fld.Type), types.Typ[types.String]) && idx < len(call.Args) {
+					if obj := a.info.Defs[pn]; obj != nil {
+						bs = append(bs, bound{obj, call.Args[idx]})
+					}
+				}
+				idx++
+			}
+		}
+		if len(bs) > 0 {
+			saved := map[types.Object]ast.Expr{}
+			had := map[types.Object]bool{}
+			for _, b := range bs {
+				if old, ok := a.locals[b.obj]; ok {
+					saved[b.obj], had[b.obj] = old, true
+				}
+				// the argument is evaluated in the caller: freeze what its identifiers mean now
+				a.locals[b.obj] = a.freeze(b.e)
+			}
+			save := a.curFn
+			a.curFn = fd.Name.Name
+			a.inlineDepth++
+			var rets []lexState
+			out, dead := a.stmts(fd.Body.List, l, &rets)
+			a.inlineDepth--
+			a.curFn = save
+			for _, b := range bs {
+				if had[b.obj] {
+					a.locals[b.obj] = saved[b.obj]
+				} else {
+					delete(a.locals, b.obj)
+				}
+			}
+			if !dead {
+				rets = append(rets, out)
+			}
+			if len(rets) == 0 {
+				return l
+			}
+			j := rets[0]
+			for _, r := range rets[1:] {
+				var ok bool
+				if j, ok = joinLex(j, r); !ok {
+					a.problem(fd, fd.Name.Name+" returns with the output in different lexical modes")
+				}
+			}
+			return j
+		}
+	}
 	key := fmt.Sprintf("%s|%v|%v", fd.Name.Name, l.m, l.esc)
 	if out, ok := a.memo[key]; ok {
 		return out
@@ -1038,10 +1208,13 @@ func RunGenWalker(p *Prog, m *idlModel, root string) (*genWalker, lexState, stri
 	}
 	a := &genWalker{p: p, info: pk.TypesInfo, fset: p.Fset, funcs: map[string]*ast.FuncDecl{}, classes: idlFieldClasses(m),
 		locals: map[types.Object]ast.Expr{}, kwSafe: map[types.Object]bool{}, memo: map[string]lexState{}, curFn: root}
+	a.methods, a.synthConst = map[string]*ast.FuncDecl{}, map[ast.Expr]string{}
 	for _, f := range pk.Syntax {
 		for _, d := range f.Decls {
 			if fd, ok := d.(*ast.FuncDecl); ok && fd.Recv == nil {
 				a.funcs[fd.Name.Name] = fd
+			} else if ok && fd.Body != nil {
+				a.methods[fd.Name.Name] = fd
 			}
 		}
 	}
@@ -1054,6 +1227,7 @@ func RunGenWalker(p *Prog, m *idlModel, root string) (*genWalker, lexState, stri
 	for iter := 0; iter < 6; iter++ {
 		a.changed = false
 		a.Splices, a.Frags, a.Problems, a.Segs, a.curSeg = nil, nil, nil, nil, nil
+		a.StmtText = map[*ast.ExprStmt]string{}
 		a.locals, a.kwSafe, a.memo = map[types.Object]ast.Expr{}, map[types.Object]bool{}, map[string]lexState{}
 		a.curFn, a.lastConst = root, ""
 		var rets []lexState
@@ -1099,4 +1273,165 @@ func (a *genWalker) substIdent(e ast.Expr, obj types.Object, repl ast.Expr) ast.
 		}
 	}
 	return e
+}
+
+// generatorRoot: the name of the template function of the generator, found by role: the innermost function of the
+// generator package whose inlined view both parses the description (idl.New) and formats the result (go/format.Source).
+func generatorRoot(p *Prog) string {
+	cg := BuildCallGraph(p)
+	var cands []*ssa.Function
+	for _, f := range p.FuncsOf(pkgGen) {
+		if f.Parent() != nil || len(f.Blocks) == 0 {
+			continue
+		}
+		v := p.Inlined(f, func(callee *ssa.Function) bool { return fnPkgPath(callee) != pkgGen })
+		hasNew, hasFmt := false, false
+		for _, cs := range callsIn(v, true) {
+			switch cs.Name() {
+			case "idl.New":
+				hasNew = true
+			case "format.Source":
+				hasFmt = true
+			}
+		}
+		if hasNew && hasFmt {
+			cands = append(cands, f)
+		}
+	}
+	for _, f := range cands {
+		inner := true
+		for _, g := range cands {
+			if g != f && cg.Reach([]*ssa.Function{f}, false)[g] {
+				inner = false
+			}
+		}
+		if inner {
+			return f.Name()
+		}
+	}
+	return "generateTemplate"
+}
+
+// methodDecl: the declaration of the generator's own method selected by se, if any (and it is not WriteString itself).
+func (a *genWalker) methodDecl(se *ast.SelectorExpr) *ast.FuncDecl {
+	sel, ok := a.info.Selections[se]
+	if !ok || sel.Kind() != types.MethodVal {
+		return nil
+	}
+	fn, ok := sel.Obj().(*types.Func)
+	if !ok || fn.Pkg() == nil || fn.Pkg().Path() != pkgGen {
+		return nil
+	}
+	return a.methods[fn.Name()]
+}
+
+// freeze replaces the identifiers of e that currently have a tracked definition by that definition, so that e keeps its
+// meaning when it is looked at later in another function.
+func (a *genWalker) freeze(e ast.Expr) ast.Expr {
+	switch x := e.(type) {
+	case *ast.Ident:
+		if obj := a.info.Uses[x]; obj != nil {
+			if def, ok := a.locals[obj]; ok {
+				if a.kwSafe[obj] {
+					return e // keep the identifier: its keyword-safety is attached to the variable
+				}
+				return def
+			}
+		}
+	case *ast.ParenExpr:
+		if n := a.freeze(x.X); n != x.X {
+			return &ast.ParenExpr{Lparen: x.Lparen, X: n, Rparen: x.Rparen}
+		}
+	case *ast.BinaryExpr:
+		l, r := a.freeze(x.X), a.freeze(x.Y)
+		if l != x.X || r != x.Y {
+			return &ast.BinaryExpr{X: l, OpPos: x.OpPos, Op: x.Op, Y: r}
+		}
+	case *ast.CallExpr:
+		changed := false
+		args := make([]ast.Expr, len(x.Args))
+		for i, arg := range x.Args {
+			args[i] = a.freeze(arg)
+			if args[i] != arg {
+				changed = true
+			}
+		}
+		if changed {
+			return &ast.CallExpr{Fun: x.Fun, Lparen: x.Lparen, Args: args, Ellipsis: x.Ellipsis, Rparen: x.Rparen}
+		}
+	}
+	return e
+}
+
+// formatExpr turns fmt.Fprintf's ("const format", args...) into the equivalent concatenation: constant text, %s -> the
+// string argument, %d -> the integer argument (a digits splice), %% -> "%". Any other verb: not classified.
+func (a *genWalker) formatExpr(format ast.Expr, args []ast.Expr) (ast.Expr, bool) {
+	tv, ok := a.info.Types[format]
+	if !ok || tv.Value == nil || tv.Value.Kind() != constant.String {
+		return nil, false
+	}
+	f := constant.StringVal(tv.Value)
+	var parts []ast.Expr
+	lit := func(s string) ast.Expr {
+		e := &ast.BasicLit{Kind: token.STRING, Value: strconv.Quote(s), ValuePos: format.Pos()}
+		a.synthConst[e] = s
+		return e
+	}
+	cur := ""
+	ai := 0
+	explicit := false
+	for i := 0; i < len(f); i++ {
+		if f[i] != '%' {
+			cur += string(f[i])
+			continue
+		}
+		if i+1 >= len(f) {
+			return nil, false
+		}
+		i++
+		// explicit argument index: %[n]s
+		if f[i] == '[' {
+			j := strings.IndexByte(f[i:], ']')
+			if j < 0 {
+				return nil, false
+			}
+			n, err := strconv.Atoi(f[i+1 : i+j])
+			if err != nil || n < 1 || n > len(args) {
+				return nil, false
+			}
+			ai = n - 1
+			explicit = true
+			i += j + 1
+			if i >= len(f) {
+				return nil, false
+			}
+		}
+		switch f[i] {
+		case '%':
+			cur += "%"
+		case 's':
+			if ai >= len(args) || !types.Identical(a.info.TypeOf(args[ai]).Underlying(), types.Typ[types.String]) {
+				return nil, false
+			}
+			if cur != "" {
+				parts = append(parts, lit(cur))
+				cur = ""
+			}
+			parts = append(parts, args[ai])
+			ai++
+		default:
+			return nil, false
+		}
+	}
+	if cur != "" || len(parts) == 0 {
+		parts = append(parts, lit(cur))
+	}
+	if ai != len(args) && !explicit {
+		return nil, false
+	}
+	e := parts[0]
+	for _, p := range parts[1:] {
+		e = &ast.BinaryExpr{X: e, Op: token.ADD, Y: p, OpPos: format.Pos()}
+	}
+	return e, true
 }
